@@ -42,9 +42,10 @@ pub fn decode_maps(data: &[u8]) -> crate::props::c13::Case {
     let mut it = data.iter().copied();
     let mut next = || it.next();
     let base_page = u32::from_le_bytes([next().unwrap_or(0), next().unwrap_or(0), next().unwrap_or(0), 0]);
-    let gate = match next().unwrap_or(0) % 4 {
+    let gate = match next().unwrap_or(0) % 5 {
         0 => Gate::None,
         1 => Gate::Elsewhere(0x1234_5000),
+        4 => Gate::Inside((next().unwrap_or(0) as u16) << 8, u32::from_le_bytes([next().unwrap_or(0), next().unwrap_or(0), 0, 0])),
         _ => Gate::LineStart((next().unwrap_or(0) as u16) << 8),
     };
     let mut lines = vec![];
@@ -115,6 +116,34 @@ pub fn maps_text(data: &[u8]) {
 }
 pub fn so_name(data: &[u8]) {
     guarded("C02", || check_name(data));
+}
+
+/// Generic E4 entry: the byte string is the random stream of proptest's pass-through RNG, so
+/// libFuzzer's coverage feedback steers the *same generators and oracles* the proptest
+/// sub-checks use.  Property and sub-check come from VERIF_FUZZ_PROP / VERIF_FUZZ_SUB.
+pub fn generic_verdict(prop: &str, sub: &str, data: &[u8]) -> Option<(serde_json::Value, Verdict)> {
+    let mut ctx = LaneCtx::for_fuzz(prop, sub, data, KnownFindings::default());
+    crate::props::run(prop, &mut ctx);
+    ctx.fuzz_out.take()
+}
+
+pub fn generic(data: &[u8]) {
+    use std::sync::OnceLock;
+    static SEL: OnceLock<(String, String)> = OnceLock::new();
+    let (prop, sub) = SEL.get_or_init(|| {
+        (std::env::var("VERIF_FUZZ_PROP").expect("VERIF_FUZZ_PROP"), std::env::var("VERIF_FUZZ_SUB").expect("VERIF_FUZZ_SUB"))
+    });
+    if let Some((_, v)) = generic_verdict(prop, sub, data) {
+        judge(prop, v);
+    }
+}
+
+pub fn replay_generic(prop: &str, sub: &str, b: &Bytes) -> Verdict {
+    match generic_verdict(prop, sub, &b.bytes) {
+        Some((case, Verdict::Violation { signature, detail })) => Verdict::Violation { signature, detail: format!("{detail}; generated case: {case}") },
+        Some((_, v)) => v,
+        None => Verdict::pass(),
+    }
 }
 
 /// Replay of a crash artifact (strict).
